@@ -26,6 +26,7 @@ type cachedSrv struct {
 	s     *drive.Srv
 	cache *drive.ObsCache
 	v2    bool
+	cfg   drive.Cfg // the server's configuration without the cache: what its uncached twin runs
 }
 
 func run(c *vk.Ctx) {
@@ -61,13 +62,15 @@ func run(c *vk.Ctx) {
 		}
 		cfg := x.cfg
 		cfg.Cache = oc
+		plain := x.cfg
+		plain.QueryCache = false
 		s, err := drive.NewShared(cfg, base)
 		if err != nil {
 			c.HarnessError("server %s: %v", x.n, err)
 			return
 		}
 		defer s.Close()
-		servers = append(servers, cachedSrv{x.n, s, oc, cfg.V2})
+		servers = append(servers, cachedSrv{x.n, s, oc, cfg.V2, plain})
 	}
 	sem.RunCases(c, base, "mem", c.Pick(200, 1500), gen.Options{HierarchyEvery: 3, AlgebraEvery: 5, MutualEvery: 4}, 3, 8, func(i int, r *rand.Rand, p *sem.Prepared, contextual []*openfgav1.TupleKey) {
 		oneCase(c, i, r, p, contextual, base, servers)
@@ -212,14 +215,10 @@ func oneCase(c *vk.Ctx, i int, r *rand.Rand, p *sem.Prepared, contextual []*open
 					continue
 				}
 				// is the uncached twin wrong in the same way? then it is not the cache (C01/C03's subject)
-				twin := base.Check(req)
-				if cs.v2 {
-					// the uncached twin of a weighted-graph server is a weighted-graph server without cache
-					if tv := v2Twin(base); tv != nil {
-						twin = tv.Check(req)
-					} else {
-						twin = o
-					}
+				// (same engine, breadth and read limits, same datastore, no cache)
+				twin := o
+				if tv := twinOf(cs, base); tv != nil {
+					twin = tv.Check(req)
 				}
 				sameAsTwin := (twin.Err != nil) == (o.Err != nil) && (o.Err != nil || twin.Allowed == o.Allowed)
 				f := sem.ClassifyCheck("C08", rc, it.rq, k, o, "fast")
@@ -251,7 +250,7 @@ func oneCase(c *vk.Ctx, i int, r *rand.Rand, p *sem.Prepared, contextual []*open
 				if strings.Join(got, ",") != strings.Join(want, ",") {
 					// the uncached twin of the same ListObjects engine decides whether the cache is involved:
 					// the same wrong answer without a cache is the engine's deviation (C05's subject)
-					if tw := loTwin(cs.name, base); tw != nil {
+					if tw := twinOf(cs, base); tw != nil {
 						tl := tw.ListObjects(drive.Req{Store: p.Store, Model: model, Object: it.rq.Object, Relation: it.rq.Relation, User: it.rq.User, Ctx: it.rq.Ctx, Contextual: it.ctxl})
 						tg := append([]string{}, tl.Items...)
 						sort.Strings(tg)
@@ -333,42 +332,18 @@ var (
 	loTwins  = map[string]*drive.Srv{}
 )
 
-// v2Twin returns the uncached weighted-graph server on the same datastore.
-func v2Twin(base *drive.Srv) *drive.Srv {
+// twinOf returns the uncached twin of a cached server: the same configuration (engine, ListObjects engine,
+// breadth and read limits) on the same datastore, with the query cache off.
+func twinOf(cs cachedSrv, base *drive.Srv) *drive.Srv {
 	loTwinMu.Lock()
 	defer loTwinMu.Unlock()
-	if s, ok := loTwins["v2"]; ok {
+	if s, ok := loTwins[cs.name]; ok {
 		return s
 	}
-	s, err := drive.NewShared(drive.Cfg{V2: true}, base)
+	s, err := drive.NewShared(cs.cfg, base)
 	if err != nil {
 		return nil
 	}
-	loTwins["v2"] = s
-	return s
-}
-
-// loTwin returns the uncached server (same datastore) with the ListObjects engine of the named cached server.
-func loTwin(name string, base *drive.Srv) *drive.Srv {
-	engine := "classic"
-	switch {
-	case strings.Contains(name, "pipeline"):
-		engine = "pipeline"
-	case strings.Contains(name, "optimized"):
-		engine = "optimized"
-	}
-	if engine == "classic" {
-		return base
-	}
-	loTwinMu.Lock()
-	defer loTwinMu.Unlock()
-	if s, ok := loTwins[engine]; ok {
-		return s
-	}
-	s, err := drive.NewShared(drive.Cfg{LOEngine: engine}, base)
-	if err != nil {
-		return nil
-	}
-	loTwins[engine] = s
+	loTwins[cs.name] = s
 	return s
 }
